@@ -1321,6 +1321,59 @@ def check_c14(tier, seed):
             if got is None or got.shape != t.shape or got.dtype != t.dtype or not np.array_equal(got, exp):
                 b.fail("C14.bounded.terminal_grad_is_seed", d4, f"terminal.grad = {None if got is None else np.asarray(got).tolist()}, expected {exp.tolist()}")
             b.case(d4)
+    # seed representations: the seed's own dtype and memory layout (another float precision, a strided window whose byte strides happen to
+    # equal those of the terminal's data, the real part of a complex array, Fortran order, reversed, integer, bool, list) never show in the
+    # stored gradients: L.grad has L's dtype, shape and layout and the value of the seed converted to L.dtype
+    def seed_reprs(shp, ldt):
+        s_ = np.dtype(ldt).itemsize
+        for sdt in (np.float64, np.float32, np.float16):
+            if np.dtype(sdt) == np.dtype(ldt):
+                continue
+            yield f"{np.dtype(sdt).name}-contiguous", np.asarray(rng.uniform(1, 2, size=shp), dtype=sdt)
+            k_ = s_ // np.dtype(sdt).itemsize
+            if k_ >= 2 and len(shp) >= 1:
+                big = np.asarray(rng.uniform(1, 2, size=shp[:-1] + (shp[-1] * k_,)), dtype=sdt)
+                yield f"{np.dtype(sdt).name}-strided-with-equal-byte-strides", big[..., ::k_]
+        cdt = {8: np.complex64, 4: None, 2: None}[s_]
+        if cdt is not None and len(shp) >= 1:
+            z = (rng.uniform(1, 2, size=shp) + 1j * rng.uniform(1, 2, size=shp)).astype(cdt)
+            yield "real-part-of-complex64", z.real
+        if len(shp) >= 1:
+            yield "same-dtype-reversed", np.asarray(rng.uniform(1, 2, size=shp), dtype=ldt)[::-1]
+            yield "same-dtype-every-other", np.asarray(rng.uniform(1, 2, size=shp[:-1] + (2 * shp[-1],)), dtype=ldt)[..., ::2]
+        if len(shp) >= 2:
+            yield "same-dtype-fortran", np.asfortranarray(np.asarray(rng.uniform(1, 2, size=shp), dtype=ldt))
+            yield "other-dtype-fortran", np.asfortranarray(np.asarray(rng.uniform(1, 2, size=shp), dtype=np.float32 if np.dtype(ldt) != np.float32 else np.float64))
+        yield "int64-strided", np.arange(1, 1 + 2 * int(np.prod(shp, dtype=int))).reshape(shp[:-1] + (2 * shp[-1],))[..., ::2] if len(shp) >= 1 else np.int64(3)
+        yield "bool", np.ones(shp, dtype=bool)
+        yield "nested-list", np.asarray(rng.integers(1, 5, size=shp)).tolist()
+
+    for ldt in (np.float64, np.float32, np.float16):
+        for shp in ((4,), (2, 3), (2, 1, 2)):
+            for tk in ("leaf", "intermediate"):
+                for sk, g in seed_reprs(shp, ldt):
+                    x = mg.tensor(np.asarray(rng.uniform(1, 2, size=shp), dtype=ldt))
+                    L = x if tk == "leaf" else x * 2
+                    g0 = np.array(g, copy=True) if isinstance(g, np.ndarray) else g
+                    d6 = dict(terminal=tk, terminal_dtype=np.dtype(ldt).name, shape=list(shp), seed=sk, seed_strides=list(getattr(g, "strides", ())), data_strides=list(L.data.strides))
+                    b.count("seed representation")
+                    try:
+                        L.backward(g)
+                    except Exception as e:
+                        b.fail("C14.bounded.seed_raises", d6, f"{type(e).__name__}: {e}")
+                        continue
+                    exp = np.asarray(g0).astype(ldt)
+                    for nm_, t, e_ in (("L", L, exp),) + ((("x", x, (exp * np.asarray(2, dtype=ldt)).astype(ldt)),) if tk == "intermediate" else ()):
+                        gr = t.grad
+                        if type(gr) is not np.ndarray or gr.shape != t.shape or gr.dtype != t.dtype:
+                            b.fail("C14.bounded.I1", dict(d6, tensor=nm_), f"grad type/shape/dtype = {type(gr).__name__}/{getattr(gr,'shape',None)}/{getattr(gr,'dtype',None)} vs tensor {t.shape}/{t.dtype}")
+                        elif not np.allclose(gr.astype(float), e_.astype(float), rtol=4e-3 if ldt is np.float16 else 1e-6, atol=0):
+                            b.fail("C14.bounded.seed_value", dict(d6, tensor=nm_), f"grad {gr.tolist()} expected {e_.tolist()}")
+                        elif gr.strides != t.data.strides:
+                            b.fail("C14.bounded.seed_layout", dict(d6, tensor=nm_), f"grad strides {gr.strides} vs data strides {t.data.strides}")
+                    if isinstance(g, np.ndarray) and not np.array_equal(g, g0):
+                        b.fail("C14.bounded.seed_mutated", d6, "the caller's seed array was written")
+                    b.case(d6)
     # nnet layer outputs: I1
     import mygrad.nnet as nn
     from mygrad.nnet.layers import gru
